@@ -321,6 +321,11 @@ def finish(prop, mod, args, agg, findings, wall, nshards):
             print(f"KNOWN-FINDING: property={prop} {fid}: {k['what']} (hits={k['hits']})")
         else:
             print(f"  note: listed finding {fid} was not reproduced in this run")
+    if agg["crashed"]:
+        print(f"  WARNING: {len(agg['crashed'])} worker(s) crashed: " + ",".join(c["shard"] for c in agg["crashed"][:8]))
+        print(agg["crashed"][0]["stderr"][-1500:])
+        for n in agg["notes"][:2]:
+            print(n)
     if viol_lines:
         for klass, path in viol_lines[:10]:
             print(f"VIOLATION property={prop} replay={path}  # {klass}")
